@@ -186,6 +186,10 @@ def forms_workload(ck, pid, tier, salts):
                 pad = " " * max(0, 65536 - 3 - pos)
                 conc = dict(conc, line=pad + conc["line"], lead=pad + conc["lead"])
                 via = "io"
+            if pid == "C09" and ai % 16 == 11:
+                # indentation made of other white space (no-break / ideographic / em space, form feed) is text before the secret too
+                ws = ["\u00a0", "\u3000 ", " \u2003", "\x0c", "\u00a0\t"][ai // 16 % 5]
+                conc = dict(conc, line=ws + conc["line"], lead=ws + conc["lead"])
             if frags is None:
                 frags = keyword_fragments(conc["words"], {x["index"] for x in conc["secrets"]}, {w.lower() for w in reserved})
             outs, logs = run_lines([conc["line"]], salt, via, words=frags)
